@@ -336,6 +336,36 @@ impl Spec {
                     break;
                 }
             }
+            // every key maps to the right value (its block, resp. the transaction itself), nothing else is indexed
+            fn digest(s: &str) -> u64 {
+                s.bytes().fold(0xcbf29ce484222325u64, |h, b| (h ^ b as u64).wrapping_mul(0x100000001b3))
+            }
+            let mut want_index: Vec<String> = Vec::new();
+            for hash in expected.iter() {
+                if let Some(e) = env.entry(hash) {
+                    for tx in e.block.txdata.iter() {
+                        want_index.push(if by_locator {
+                            format!("{:?}={:016x}", Locator::new(tx.compute_txid()), digest(&format!("{tx:?}")))
+                        } else {
+                            format!("{:?}={:016x}", tx.compute_txid(), digest(&format!("{:?}", e.hash)))
+                        });
+                    }
+                }
+            }
+            want_index.sort();
+            want_index.dedup();
+            if let Some(i) = snap.find("] index=") {
+                let rest = &snap[i + 8..];
+                if let Some(j) = rest.find(" dangling_blocks=") {
+                    if rest[..j] != format!("{want_index:?}") {
+                        out.push(Viol {
+                            props: &["C19"],
+                            sig: format!("recent-blocks:{what}:a-key-maps-to-the-wrong-value-or-is-missing-or-extra"),
+                            detail: format!("{what}: index is {} expected {want_index:?}", &rest[..j]),
+                        });
+                    }
+                }
+            }
             let tip_field: Option<u32> = snap.find("tip=").and_then(|i| snap[i + 4..].split(' ').next().and_then(|x| x.parse().ok()));
             let want_tip = expected.back().and_then(|h| env.entry(h)).map(|e| e.height);
             if let (Some(a), Some(b)) = (tip_field, want_tip) {
@@ -819,6 +849,21 @@ impl Spec {
                             AState::Either { .. } => obs_has_watched_row(obs, u, k),
                             AState::Responded { .. } => false,
                         };
+                        if let AState::Responded { penalty } = &a.state {
+                            // the dispute of an appointment already responded to is confirmed (again, after a
+                            // reorg) in a block the tower processes: the node must be given the penalty, or be
+                            // known to have it, while that block is handled - like for any other breach
+                            if self.penalty_verdict(&rpcs, penalty, w).is_none() {
+                                out.push(Viol {
+                                    props: &["C01"],
+                                    sig: "breach-not-answered:dispute-confirmed-again".into(),
+                                    detail: format!(
+                                        "block {h} confirms D{k} again; U{u}'s appointment is held (responded) but its penalty {} was neither submitted nor known to the node while the block was handled",
+                                        tx_label(penalty)
+                                    ),
+                                });
+                            }
+                        }
                         if !watched {
                             continue;
                         }
